@@ -1,6 +1,7 @@
 import Lemmas.Funding
 import Model.Numscript.Spec
 import Lemmas.SpecFloor
+import Lemmas.NumLift
 /-! C01 — script execution never overdraws an account.
 Part 1: the balance primitives every source is built from.  Part 2: `no_overdraw` over `Spec.run` — every
 posting of an accepted run leaves its (bounded, non-`world`) source account at or above minus the overdraft the
@@ -24,7 +25,7 @@ theorem withdrawAll_bounded {b b' : Bal} {a : Acct} {s : Asset} {o : Int} {p : P
     · simp only [hpos, if_true, Except.ok.injEq, Prod.mk.injEq] at h
       obtain ⟨rfl, rfl⟩ := h
       refine ⟨t, rfl, rfl, by simp; omega, by simp; omega, ?_, ?_⟩
-      · simp [Bal.upd]; omega
+      · simp [Bal.upd] <;> omega
       · intro _; simp [Bal.upd]
     · simp only [hpos, if_false, Except.ok.injEq, Prod.mk.injEq] at h
       obtain ⟨rfl, rfl⟩ := h
@@ -228,5 +229,21 @@ example : run exScript ⟨[], []⟩ { exStore with balance := fun _ _ => 3 } = .
 /-- the world literal is an unbounded occurrence -/
 example : grants [] [.send (.mon (.mon (.asset "USD") 10)) (.src (.acct (.acct "world") .none)) (.acct (.acct "b"))]
     "world" "USD" = none := by decide
+
+/-! #### the compiled program inherits the floor
+
+`no_overdraw` is about `Spec.run`.  Compiler correctness (`Num.run_eq`, stated as `C08.compile_correct`: for the whole
+language the bytecode VM model answers exactly what `Spec.run` answers) carries it to what the engine executes: the
+postings the VM model emits for the compiled program respect the same floor.  (That the VM and compiler MODELS are the
+Go code rests on the bytecode-equality and VM differentials of C08.) -/
+
+/-- **`no_overdraw_compiled`**: an accepted run of the COMPILED program on the bytecode VM never takes a bounded account
+below minus the overdraft the script grants it -/
+theorem no_overdraw_compiled {P : Script} {prog : Program} (hc : compile P = .ok prog) (hwf : P.frag2)
+    {req : Request} {store : Store} {r : VM.Result} (h : VM.run prog req store = .ok r) :
+    ∃ env, prepare P req store = .ok env ∧ FloorOK (grants env P.stmts) store.balance r.postings := by
+  obtain ⟨r', h1, h2⟩ := vm_ok_postings hc hwf req store h
+  obtain ⟨env, hp, hf⟩ := no_overdraw h1
+  exact ⟨env, hp, h2 ▸ hf⟩
 
 end C01
